@@ -5,4 +5,584 @@ import DnsVerif.Model.Cdb
 
 namespace DnsVerif.Cdb
 
+/-! ### cyclic index arithmetic (all `omega`-friendly: no `%` by a variable) -/
+
+/-- the successor position used by both probe loops -/
+def nxt (N p : Nat) : Nat := if p + 1 = N then 0 else p + 1
+/-- the index at cyclic distance `d` from `p` (for `p < N`, `d ≤ N`) -/
+def cidx (N p d : Nat) : Nat := if p + d < N then p + d else p + d - N
+/-- the cyclic distance from `p` to `i` -/
+def cdist (N p i : Nat) : Nat := if p ≤ i then i - p else i + N - p
+
+theorem cidx_lt {N p d : Nat} (hp : p < N) (hd : d ≤ N) : cidx N p d < N := by
+  unfold cidx; split <;> omega
+
+theorem cidx_zero {N p : Nat} (_hp : p < N) : cidx N p 0 = p := by
+  unfold cidx; split <;> omega
+
+theorem nxt_cidx {N p d : Nat} (hp : p < N) (hd : d < N) :
+    nxt N (cidx N p d) = cidx N p (d + 1) := by
+  unfold nxt cidx; repeat' split
+  all_goals omega
+
+theorem cidx_inj {N p d d' : Nat} (_hp : p < N) (hd : d < N) (hd' : d' < N)
+    (h : cidx N p d = cidx N p d') : d = d' := by
+  unfold cidx at h; repeat' split at h
+  all_goals omega
+
+theorem cidx_cdist {N p i : Nat} (hp : p < N) (hi : i < N) : cidx N p (cdist N p i) = i := by
+  unfold cidx cdist; repeat' split
+  all_goals omega
+
+theorem cdist_lt {N p i : Nat} (hp : p < N) (hi : i < N) : cdist N p i < N := by
+  unfold cdist; split <;> omega
+
+theorem cdist_cidx {N p d : Nat} (hp : p < N) (hd : d < N) : cdist N p (cidx N p d) = d := by
+  unfold cidx cdist; repeat' split
+  all_goals omega
+
+/-- least witness below a witness (core has no `Nat.find`) -/
+theorem exists_least (P : Nat → Prop) (n : Nat) (h : P n) :
+    ∃ m, m ≤ n ∧ P m ∧ ∀ k, k < m → ¬ P k := by
+  induction n using Nat.strongRecOn with
+  | _ n ih =>
+    by_cases hex : ∃ k, k < n ∧ P k
+    · obtain ⟨k, hk, hpk⟩ := hex
+      obtain ⟨m, hm, hpm, hmin⟩ := ih k hk hpk
+      exact ⟨m, by omega, hpm, hmin⟩
+    · exact ⟨n, Nat.le_refl n, h, fun k hk hpk => hex ⟨k, hk, hpk⟩⟩
+
+/-! ### slots of a table -/
+
+/-- the slot at index `i` (empty beyond the end) -/
+def slotAt (tbl : List Slot) (i : Nat) : Slot := tbl.getD i (0, 0)
+
+/-- index `i` holds a record -/
+def Occ (tbl : List Slot) (i : Nat) : Prop := (slotAt tbl i).2 ≠ 0
+
+theorem getElem?_slotAt {tbl : List Slot} {i : Nat} (h : i < tbl.length) :
+    tbl[i]? = some (slotAt tbl i) := by
+  simp [slotAt, List.getD_eq_getElem?_getD, List.getElem?_eq_getElem h]
+
+theorem slotAt_cons_zero (a : Slot) (t : List Slot) : slotAt (a :: t) 0 = a := by
+  simp [slotAt]
+
+theorem slotAt_cons_succ (a : Slot) (t : List Slot) (i : Nat) :
+    slotAt (a :: t) (i + 1) = slotAt t i := by
+  simp [slotAt]
+
+theorem slotAt_set_self {tbl : List Slot} {q : Nat} (s : Slot) (h : q < tbl.length) :
+    slotAt (tbl.set q s) q = s := by
+  simp [slotAt, List.getD_eq_getElem?_getD, h]
+
+theorem slotAt_set_ne {tbl : List Slot} {q i : Nat} (s : Slot) (h : q ≠ i) :
+    slotAt (tbl.set q s) i = slotAt tbl i := by
+  simp [slotAt, List.getD_eq_getElem?_getD, h]
+
+theorem slotAt_mem {tbl : List Slot} {i : Nat} (h : i < tbl.length) : slotAt tbl i ∈ tbl := by
+  have := getElem?_slotAt h
+  exact List.mem_of_getElem? this
+
+theorem Occ.set {tbl : List Slot} {q i : Nat} {s : Slot} (hs : s.2 ≠ 0) (hq : q < tbl.length)
+    (h : Occ tbl i) : Occ (tbl.set q s) i := by
+  unfold Occ
+  by_cases hqi : q = i
+  · subst hqi; rw [slotAt_set_self s hq]; exact hs
+  · rw [slotAt_set_ne s hqi]; exact h
+
+/-- filling a free slot uses up exactly one free slot -/
+theorem filter_free_set (s : Slot) (hs : s.2 ≠ 0) : ∀ (tbl : List Slot) (q : Nat),
+    q < tbl.length → (slotAt tbl q).2 = 0 →
+    ((tbl.set q s).filter (fun s => s.2 = 0)).length + 1
+      = (tbl.filter (fun s => s.2 = 0)).length := by
+  intro tbl
+  induction tbl with
+  | nil => intro q hq; simp at hq
+  | cons a t ih =>
+    intro q hq hfree
+    cases q with
+    | zero =>
+      rw [slotAt_cons_zero] at hfree
+      simp [hfree, hs]
+    | succ q =>
+      rw [slotAt_cons_succ] at hfree
+      have := ih q (by simpa using hq) hfree
+      simp only [List.set_cons_succ, List.filter_cons]
+      split
+      · simp only [List.length_cons]; omega
+      · exact this
+
+theorem exists_free_of_filter {tbl : List Slot}
+    (h : 0 < (tbl.filter (fun s => s.2 = 0)).length) : ∃ i, i < tbl.length ∧ ¬ Occ tbl i := by
+  obtain ⟨a, ha⟩ := List.exists_mem_of_length_pos h
+  rw [List.mem_filter] at ha
+  obtain ⟨i, hi, hia⟩ := List.mem_iff_getElem.mp ha.1
+  refine ⟨i, hi, ?_⟩
+  have h1 : tbl[i]? = some (slotAt tbl i) := getElem?_slotAt hi
+  rw [List.getElem?_eq_getElem hi, hia] at h1
+  have h2 : a = slotAt tbl i := Option.some.inj h1
+  unfold Occ; rw [← h2]; simpa using ha.2
+
+/-- from any start the probe meets a first free slot when one exists -/
+theorem exists_first_free {tbl : List Slot} {p : Nat} (hp : p < tbl.length)
+    (hfree : ∃ i, i < tbl.length ∧ ¬ Occ tbl i) :
+    ∃ de, de < tbl.length ∧ ¬ Occ tbl (cidx tbl.length p de) ∧
+      ∀ d, d < de → Occ tbl (cidx tbl.length p d) := by
+  obtain ⟨i, hi, hfi⟩ := hfree
+  have h0 : ¬ Occ tbl (cidx tbl.length p (cdist tbl.length p i)) := by
+    rw [cidx_cdist hp hi]; exact hfi
+  obtain ⟨m, hm, hpm, hmin⟩ :=
+    exists_least (fun d => ¬ Occ tbl (cidx tbl.length p d)) _ h0
+  have := cdist_lt hp hi
+  exact ⟨m, by omega, hpm, fun d hd => Classical.not_not.mp (hmin d hd)⟩
+
+/-! ### the two probe loops along a cyclic path -/
+
+theorem probeAll_go_succ {tbl : List Slot} {kh f p : Nat} (hp : p < tbl.length) :
+    probeAll.go tbl kh tbl.length (f + 1) p =
+      if (slotAt tbl p).2 = 0 then []
+      else (if (slotAt tbl p).1 = kh then [(slotAt tbl p).2] else [])
+        ++ probeAll.go tbl kh tbl.length f (nxt tbl.length p) := by
+  rw [probeAll.go.eq_2, getElem?_slotAt hp]
+  simp only [nxt]
+  split
+  · rfl
+  · split <;> rfl
+
+theorem probeInsert_go_succ {tbl : List Slot} {s : Slot} {f p : Nat} (hp : p < tbl.length) :
+    probeInsert.go tbl s tbl.length (f + 1) p =
+      if (slotAt tbl p).2 ≠ 0 then probeInsert.go tbl s tbl.length f (nxt tbl.length p)
+      else tbl.set p s := by
+  rw [probeInsert.go.eq_2, getElem?_slotAt hp]
+  rfl
+
+/-- the values with hash `kh` among the `k` slots at cyclic distances `d, d+1, …` from `p` -/
+def pathVals (tbl : List Slot) (kh N p : Nat) : Nat → Nat → List Nat
+  | _, 0 => []
+  | d, k + 1 =>
+    (if (slotAt tbl (cidx N p d)).1 = kh then [(slotAt tbl (cidx N p d)).2] else [])
+      ++ pathVals tbl kh N p (d + 1) k
+
+theorem pathVals_congr {tbl tbl' : List Slot} {kh N p : Nat} : ∀ (k d : Nat),
+    (∀ j, d ≤ j → j < d + k → slotAt tbl' (cidx N p j) = slotAt tbl (cidx N p j)) →
+    pathVals tbl' kh N p d k = pathVals tbl kh N p d k := by
+  intro k
+  induction k with
+  | zero => intros; rfl
+  | succ k ih =>
+    intro d h
+    simp only [pathVals]
+    rw [h d (Nat.le_refl d) (by omega), ih (d + 1) (fun j h1 h2 => h j (by omega) (by omega))]
+
+theorem pathVals_append {tbl : List Slot} {kh N p : Nat} : ∀ (k1 k2 d : Nat),
+    pathVals tbl kh N p d (k1 + k2)
+      = pathVals tbl kh N p d k1 ++ pathVals tbl kh N p (d + k1) k2 := by
+  intro k1
+  induction k1 with
+  | zero => intro k2 d; simp [pathVals]
+  | succ k1 ih =>
+    intro k2 d
+    have : k1 + 1 + k2 = (k1 + k2) + 1 := by omega
+    rw [this]
+    simp only [pathVals]
+    rw [ih k2 (d + 1), List.append_assoc]
+    have : d + 1 + k1 = d + (k1 + 1) := by omega
+    rw [this]
+
+theorem pathVals_nil {tbl : List Slot} {kh N p : Nat} : ∀ (k d : Nat),
+    (∀ j, d ≤ j → j < d + k → (slotAt tbl (cidx N p j)).1 ≠ kh) →
+    pathVals tbl kh N p d k = [] := by
+  intro k
+  induction k with
+  | zero => intros; rfl
+  | succ k ih =>
+    intro d h
+    simp only [pathVals]
+    rw [if_neg (h d (Nat.le_refl d) (by omega)),
+      ih (d + 1) (fun j h1 h2 => h j (by omega) (by omega))]
+    rfl
+
+/-- the reader's loop: collects the matching values up to the first free slot -/
+theorem probeAll_go_eq_pathVals {tbl : List Slot} {kh p : Nat} (hp : p < tbl.length) :
+    ∀ (k d f : Nat), d + k < tbl.length → k < f →
+      (∀ j, d ≤ j → j < d + k → Occ tbl (cidx tbl.length p j)) →
+      ¬ Occ tbl (cidx tbl.length p (d + k)) →
+      probeAll.go tbl kh tbl.length f (cidx tbl.length p d) = pathVals tbl kh tbl.length p d k := by
+  intro k
+  induction k with
+  | zero =>
+    intro d f hd hf _ hfree
+    obtain ⟨f, rfl⟩ : ∃ f', f = f' + 1 := ⟨f - 1, by omega⟩
+    rw [probeAll_go_succ (cidx_lt hp (by omega))]
+    have : (slotAt tbl (cidx tbl.length p d)).2 = 0 := by
+      have := hfree; unfold Occ at this; simpa using this
+    rw [if_pos this]; rfl
+  | succ k ih =>
+    intro d f hd hf hocc hfree
+    obtain ⟨f, rfl⟩ : ∃ f', f = f' + 1 := ⟨f - 1, by omega⟩
+    rw [probeAll_go_succ (cidx_lt hp (by omega))]
+    have h1 : (slotAt tbl (cidx tbl.length p d)).2 ≠ 0 := hocc d (Nat.le_refl d) (by omega)
+    rw [if_neg h1, nxt_cidx hp (by omega)]
+    rw [ih (d + 1) f (by omega) (by omega) (fun j h1 h2 => hocc j (by omega) (by omega))
+      (by rw [show d + 1 + k = d + (k + 1) by omega]; exact hfree)]
+    rfl
+
+/-- the writer's loop: fills the first free slot on the path -/
+theorem probeInsert_go_eq {tbl : List Slot} {s : Slot} {p : Nat} (hp : p < tbl.length) :
+    ∀ (k d f : Nat), d + k < tbl.length → k < f →
+      (∀ j, d ≤ j → j < d + k → Occ tbl (cidx tbl.length p j)) →
+      ¬ Occ tbl (cidx tbl.length p (d + k)) →
+      probeInsert.go tbl s tbl.length f (cidx tbl.length p d)
+        = tbl.set (cidx tbl.length p (d + k)) s := by
+  intro k
+  induction k with
+  | zero =>
+    intro d f hd hf _ hfree
+    obtain ⟨f, rfl⟩ : ∃ f', f = f' + 1 := ⟨f - 1, by omega⟩
+    rw [probeInsert_go_succ (cidx_lt hp (by omega))]
+    have : ¬ (slotAt tbl (cidx tbl.length p d)).2 ≠ 0 := hfree
+    rw [if_neg this]; rfl
+  | succ k ih =>
+    intro d f hd hf hocc hfree
+    obtain ⟨f, rfl⟩ : ∃ f', f = f' + 1 := ⟨f - 1, by omega⟩
+    rw [probeInsert_go_succ (cidx_lt hp (by omega))]
+    have h1 : (slotAt tbl (cidx tbl.length p d)).2 ≠ 0 := hocc d (Nat.le_refl d) (by omega)
+    rw [if_pos h1, nxt_cidx hp (by omega)]
+    rw [ih (d + 1) f (by omega) (by omega) (fun j h1 h2 => hocc j (by omega) (by omega))
+      (by rw [show d + 1 + k = d + (k + 1) by omega]; exact hfree)]
+    rw [show d + 1 + k = d + (k + 1) by omega]
+
+/-- start slot of hash `h` in a table of `N` slots -/
+def startOf (N h : Nat) : Nat := (h / 256) % N
+
+theorem startOf_lt {N : Nat} (h : Nat) (hN : 0 < N) : startOf N h < N := Nat.mod_lt _ hN
+
+theorem probeAll_eq_pathVals {tbl : List Slot} {kh de : Nat} (hN : 0 < tbl.length)
+    (hde : de < tbl.length)
+    (hfree : ¬ Occ tbl (cidx tbl.length (startOf tbl.length kh) de))
+    (hocc : ∀ d, d < de → Occ tbl (cidx tbl.length (startOf tbl.length kh) d)) :
+    probeAll tbl kh = pathVals tbl kh tbl.length (startOf tbl.length kh) 0 de := by
+  have hp := startOf_lt kh hN
+  unfold probeAll
+  simp only
+  rw [if_neg (by omega)]
+  have := probeAll_go_eq_pathVals (kh := kh) hp de 0 tbl.length (by omega) (by omega)
+    (fun j _ h2 => hocc j (by omega)) (by rw [Nat.zero_add]; exact hfree)
+  rw [cidx_zero hp] at this
+  exact this
+
+theorem probeInsert_eq_set {tbl : List Slot} {s : Slot} {dq : Nat} (hN : 0 < tbl.length)
+    (hdq : dq < tbl.length)
+    (hfree : ¬ Occ tbl (cidx tbl.length (startOf tbl.length s.1) dq))
+    (hocc : ∀ d, d < dq → Occ tbl (cidx tbl.length (startOf tbl.length s.1) d)) :
+    probeInsert tbl s = tbl.set (cidx tbl.length (startOf tbl.length s.1) dq) s := by
+  have hp := startOf_lt s.1 hN
+  unfold probeInsert
+  simp only
+  rw [if_neg (by omega)]
+  have := probeInsert_go_eq (s := s) hp dq 0 tbl.length (by omega) (by omega)
+    (fun j _ h2 => hocc j (by omega)) (by rw [Nat.zero_add]; exact hfree)
+  rw [cidx_zero hp, Nat.zero_add] at this
+  exact this
+
+/-! ### the insertion invariant -/
+
+/-- no holes: every slot on the cyclic path from a record's start slot to the record is occupied -/
+def NoHoles (tbl : List Slot) : Prop :=
+  ∀ i, i < tbl.length → Occ tbl i →
+    ∀ d, d < cdist tbl.length (startOf tbl.length (slotAt tbl i).1) i →
+      Occ tbl (cidx tbl.length (startOf tbl.length (slotAt tbl i).1) d)
+
+/-- one insertion into a table that keeps a free slot afterwards -/
+theorem probeInsert_step {tbl : List Slot} {s : Slot} (hs : s.2 ≠ 0)
+    (hfree2 : 2 ≤ (tbl.filter (fun s => s.2 = 0)).length) (hb : NoHoles tbl) :
+    (probeInsert tbl s).length = tbl.length ∧
+    ((probeInsert tbl s).filter (fun s => s.2 = 0)).length + 1
+      = (tbl.filter (fun s => s.2 = 0)).length ∧
+    NoHoles (probeInsert tbl s) ∧
+    ∀ kh, probeAll (probeInsert tbl s) kh = probeAll tbl kh ++ (if s.1 = kh then [s.2] else []) := by
+  have hle := List.length_filter_le (fun s : Slot => decide (s.2 = 0)) tbl
+  have hN : 0 < tbl.length := by omega
+  have hfree : ∃ i, i < tbl.length ∧ ¬ Occ tbl i := exists_free_of_filter (by omega)
+  have hps := startOf_lt s.1 hN
+  obtain ⟨dq, hdq, hfq, hoq⟩ := exists_first_free hps hfree
+  have hq : cidx tbl.length (startOf tbl.length s.1) dq < tbl.length := cidx_lt hps (by omega)
+  have heq := probeInsert_eq_set (s := s) hN hdq hfq hoq
+  have hcnt := filter_free_set s hs tbl _ hq (by simpa [Occ] using hfq)
+  rw [heq]
+  generalize hqdef : cidx tbl.length (startOf tbl.length s.1) dq = q at *
+  refine ⟨List.length_set, hcnt, ?_, ?_⟩
+  · -- no holes
+    intro i hi hocc d hd
+    simp only [List.length_set] at hi hd ⊢
+    by_cases hqi : q = i
+    · subst hqi
+      rw [slotAt_set_self s hq] at hd ⊢
+      rw [← hqdef, cdist_cidx hps hdq] at hd
+      exact Occ.set hs hq (hoq d hd)
+    · rw [slotAt_set_ne s hqi] at hd ⊢
+      have hocc' : Occ tbl i := by unfold Occ at hocc; rwa [slotAt_set_ne s hqi] at hocc
+      exact Occ.set hs hq (hb i hi hocc' d hd)
+  · -- the reader
+    intro kh
+    have hp0 := startOf_lt kh hN
+    obtain ⟨de, hde, hfe, hoe⟩ := exists_first_free hp0 hfree
+    rw [probeAll_eq_pathVals hN hde hfe hoe]
+    by_cases hqe : q = cidx tbl.length (startOf tbl.length kh) de
+    · -- the new record lands on the path of `kh`
+      have hfree' : ∃ i, i < (tbl.set q s).length ∧ ¬ Occ (tbl.set q s) i :=
+        exists_free_of_filter (by omega)
+      have hN' : 0 < (tbl.set q s).length := by rw [List.length_set]; exact hN
+      have hp0' := startOf_lt kh hN'
+      obtain ⟨de', hde', hfe', hoe'⟩ := exists_first_free hp0' hfree'
+      rw [probeAll_eq_pathVals hN' hde' hfe' hoe']
+      simp only [List.length_set] at hde' hfe' hoe' ⊢
+      have hlt : de < de' := by
+        rcases Nat.lt_trichotomy de' de with h | h | h
+        · exact absurd (Occ.set hs hq (hoe de' h)) hfe'
+        · exfalso; apply hfe'; rw [h, ← hqe]; unfold Occ; rw [slotAt_set_self s hq]; exact hs
+        · exact h
+      have hne : ∀ j, j < tbl.length → j ≠ de →
+          slotAt (tbl.set q s) (cidx tbl.length (startOf tbl.length kh) j)
+            = slotAt tbl (cidx tbl.length (startOf tbl.length kh) j) := by
+        intro j hj hjde
+        apply slotAt_set_ne
+        rw [hqe]
+        intro h
+        exact hjde (cidx_inj hp0 hde hj h).symm
+      rw [show de' = de + (1 + (de' - de - 1)) by omega, pathVals_append, pathVals_append]
+      rw [pathVals_congr de 0 (fun j _ h2 => hne j (by omega) (by omega))]
+      congr 1
+      have hlast : pathVals (tbl.set q s) kh tbl.length (startOf tbl.length kh) (0 + de + 1)
+          (de' - de - 1) = [] := by
+        apply pathVals_nil
+        intro j h1 h2 hk
+        have hj : j < de' := by omega
+        have hoj := hoe' j hj
+        unfold Occ at hoj
+        rw [hne j (by omega) (by omega)] at hoj hk
+        have := hb _ (cidx_lt hp0 (by omega)) hoj de
+        rw [hk, cdist_cidx hp0 (by omega)] at this
+        exact hfe (this (by omega))
+      rw [hlast, List.append_nil]
+      simp only [pathVals, Nat.zero_add, List.append_nil]
+      rw [← hqe, slotAt_set_self s hq]
+    · -- the new record is off the path of `kh`
+      have hsk : s.1 ≠ kh := by
+        intro hk
+        rw [hk] at hqdef hoq
+        apply hqe
+        rw [← hqdef]
+        rcases Nat.lt_trichotomy dq de with h | h | h
+        · exact absurd (hqdef ▸ hoe dq h) hfq
+        · rw [h]
+        · exact absurd (hoq de h) hfe
+      rw [if_neg hsk, List.append_nil]
+      have hN' : 0 < (tbl.set q s).length := by rw [List.length_set]; exact hN
+      have hde' : de < (tbl.set q s).length := by rw [List.length_set]; exact hde
+      have hfe' : ¬ Occ (tbl.set q s)
+          (cidx (tbl.set q s).length (startOf (tbl.set q s).length kh) de) := by
+        rw [List.length_set]; unfold Occ; rw [slotAt_set_ne s hqe]; exact hfe
+      have hoe' : ∀ d, d < de → Occ (tbl.set q s)
+          (cidx (tbl.set q s).length (startOf (tbl.set q s).length kh) d) := by
+        intro d hd; rw [List.length_set]; exact Occ.set hs hq (hoe d hd)
+      rw [probeAll_eq_pathVals hN' hde' hfe' hoe']
+      simp only [List.length_set]
+      apply pathVals_congr
+      intro j _ h2
+      apply slotAt_set_ne
+      intro h
+      exact hfq (h ▸ hoe j (by omega))
+
+/-- the state of the writer's table after inserting `done` into `N` slots -/
+structure TblInv (tbl : List Slot) (done : List Slot) (N : Nat) : Prop where
+  len : tbl.length = N
+  free : (tbl.filter (fun s => s.2 = 0)).length + done.length = N
+  noHoles : NoHoles tbl
+  reads : ∀ kh, probeAll tbl kh = (done.filter (fun s => s.1 = kh)).map (·.2)
+
+theorem slotAt_replicate (N i : Nat) : slotAt (List.replicate N (0, 0)) i = (0, 0) := by
+  simp only [slotAt, List.getD_eq_getElem?_getD, List.getElem?_replicate]
+  split <;> rfl
+
+theorem tblInv_init (N : Nat) : TblInv (List.replicate N (0, 0)) [] N := by
+  refine ⟨List.length_replicate, by simp, ?_, ?_⟩
+  · intro i _ hocc
+    exact absurd (by rw [slotAt_replicate]) hocc
+  · intro kh
+    by_cases hN : N = 0
+    · subst hN; rfl
+    · have hN' : 0 < (List.replicate N ((0, 0) : Slot)).length := by
+        rw [List.length_replicate]; omega
+      rw [probeAll_eq_pathVals (de := 0) hN' hN'
+        (by unfold Occ; rw [slotAt_replicate]; simp) (fun d hd => by omega)]
+      rfl
+
+theorem tblInv_foldl : ∀ (rest tbl done : List Slot) (N : Nat), TblInv tbl done N →
+    (∀ s ∈ rest, s.2 ≠ 0) → (rest ≠ [] → done.length + rest.length + 1 ≤ N) →
+    TblInv (rest.foldl probeInsert tbl) (done ++ rest) N := by
+  intro rest
+  induction rest with
+  | nil => intro tbl done N h _ _; simpa using h
+  | cons s r ih =>
+    intro tbl done N h hpos hsz
+    have hsz' := hsz (by simp)
+    simp only [List.length_cons] at hsz'
+    have hs : s.2 ≠ 0 := hpos s (by simp)
+    have hfree := h.free
+    obtain ⟨h1, h2, h3, h4⟩ := probeInsert_step (tbl := tbl) hs (by omega) h.noHoles
+    have hinv : TblInv (probeInsert tbl s) (done ++ [s]) N := by
+      refine ⟨by rw [h1, h.len], ?_, h3, ?_⟩
+      · simp only [List.length_append, List.length_cons, List.length_nil]; omega
+      · intro kh
+        rw [h4 kh, h.reads kh, List.filter_append, List.map_append]
+        congr 1
+        by_cases hk : s.1 = kh <;> simp [hk]
+    have := ih (probeInsert tbl s) (done ++ [s]) N hinv
+      (fun x hx => hpos x (List.mem_cons_of_mem _ hx))
+      (fun _ => by simp only [List.length_append, List.length_cons, List.length_nil]; omega)
+    simpa [List.foldl_cons, List.append_assoc] using this
+
+theorem tblInv_buildTable (slots : List Slot) (hpos : ∀ s ∈ slots, s.2 ≠ 0) :
+    TblInv (buildTable slots) slots (2 * slots.length) := by
+  have := tblInv_foldl slots (List.replicate (2 * slots.length) (0, 0)) [] (2 * slots.length)
+    (tblInv_init _) hpos (fun h => by
+      have : 0 < slots.length := List.length_pos_iff.mpr h
+      simp only [List.length_nil]; omega)
+  simpa [buildTable] using this
+
+/-! ### dump / make text format -/
+
+theorem byteArray_toList_loop (bs : ByteArray) : ∀ (n i : Nat) (r : List UInt8), bs.size - i = n →
+    ByteArray.toList.loop bs i r = r.reverse ++ bs.data.toList.drop i := by
+  intro n
+  induction n with
+  | zero =>
+    intro i r h
+    rw [ByteArray.toList.loop, if_neg (by omega)]
+    have : bs.data.toList.length ≤ i := by
+      have : bs.size = bs.data.toList.length := by simp
+      omega
+    rw [List.drop_eq_nil_of_le this, List.append_nil]
+  | succ n ih =>
+    intro i r h
+    have hi : i < bs.size := by omega
+    rw [ByteArray.toList.loop, if_pos hi, ih (i + 1) _ (by omega)]
+    have hi' : i < bs.data.toList.length := by simpa using hi
+    rw [List.drop_eq_getElem_cons hi']
+    have : bs.get! i = bs.data.toList[i] := by
+      cases bs with
+      | mk data =>
+        simp [ByteArray.get!]
+        have hd : i < data.size := by simpa using hi'
+        exact getElem!_pos data i hd
+    rw [this]; simp
+
+theorem byteArray_toList (bs : ByteArray) : bs.toList = bs.data.toList := by
+  unfold ByteArray.toList
+  rw [byteArray_toList_loop bs _ 0 [] rfl]; simp
+
+theorem digit_enc : ∀ d, d < 10 → String.utf8EncodeChar (Nat.digitChar d) = [UInt8.ofNat (48 + d)] := by
+  decide
+
+theorem natDigits_eq (n : Nat) :
+    natDigits n = (Nat.toDigits 10 n).flatMap String.utf8EncodeChar := by
+  unfold natDigits
+  rw [Nat.toString_eq_ofList_toDigits, String.toUTF8_eq_toByteArray, String.toByteArray_ofList,
+    byteArray_toList, List.utf8Encode, List.toList_data_toByteArray]
+
+theorem natDigits_lt {n : Nat} (h : n < 10) : natDigits n = [UInt8.ofNat (48 + n)] := by
+  rw [natDigits_eq, Nat.toDigits_of_lt_base h]
+  simp [digit_enc n h]
+
+theorem natDigits_ge {n : Nat} (h : 10 ≤ n) :
+    natDigits n = natDigits (n / 10) ++ [UInt8.ofNat (48 + n % 10)] := by
+  rw [natDigits_eq, natDigits_eq, Nat.toDigits_of_base_le (by omega) h, List.flatMap_append]
+  simp [digit_enc (n % 10) (Nat.mod_lt _ (by omega))]
+
+theorem readNumUntil_digit {delim : UInt8} (hdelim : ¬ (0x30 ≤ delim.toNat ∧ delim.toNat ≤ 0x39))
+    {d : Nat} (hd : d < 10) (tail : Bytes) (acc : Nat) (seen : Bool) :
+    readNumUntil delim (UInt8.ofNat (48 + d) :: tail) acc seen
+      = readNumUntil delim tail (acc * 10 + d) true := by
+  have hto : (UInt8.ofNat (48 + d)).toNat = 48 + d := by
+    simp [UInt8.toNat_ofNat']; omega
+  rw [readNumUntil]
+  have hne : UInt8.ofNat (48 + d) ≠ delim := by
+    intro h; rw [← h, hto] at hdelim; omega
+  rw [if_neg hne, hto, if_pos (by omega)]
+  congr 2
+  omega
+
+theorem readNumUntil_natDigits {delim : UInt8}
+    (hdelim : ¬ (0x30 ≤ delim.toNat ∧ delim.toNat ≤ 0x39)) :
+    ∀ (n : Nat) (tail : Bytes) (seen : Bool),
+      readNumUntil delim (natDigits n ++ tail) 0 seen = readNumUntil delim tail n true := by
+  intro n
+  induction n using Nat.strongRecOn with
+  | _ n ih =>
+    intro tail seen
+    by_cases h : n < 10
+    · rw [natDigits_lt h, List.singleton_append, readNumUntil_digit hdelim h]
+      simp
+    · rw [natDigits_ge (by omega), List.append_assoc, ih (n / 10) (by omega), List.singleton_append,
+        readNumUntil_digit hdelim (Nat.mod_lt _ (by omega))]
+      congr 1
+      omega
+
+theorem readNumUntil_natDigits_delim {delim : UInt8}
+    (hdelim : ¬ (0x30 ≤ delim.toNat ∧ delim.toNat ≤ 0x39)) {n : Nat} (hn : n < u32) (rest : Bytes) :
+    readNumUntil delim (natDigits n ++ delim :: rest) 0 false = some (n, rest) := by
+  rw [readNumUntil_natDigits hdelim, readNumUntil, if_pos rfl, if_pos ⟨rfl, hn⟩]
+
+theorem lenGe_iff (l : Bytes) (n : Nat) : lenGe l n = true ↔ n ≤ l.length := by
+  unfold lenGe
+  cases n with
+  | zero => simp
+  | succ n =>
+    simp [List.drop_eq_nil_iff]
+    omega
+
+theorem dumpText_cons (k d : Bytes) (rest : List (Bytes × Bytes)) :
+    dumpText ((k, d) :: rest) =
+      0x2b :: (natDigits k.length ++ 0x2c :: (natDigits d.length ++ 0x3a ::
+        (k ++ 0x2d :: 0x3e :: (d ++ 0x0a :: dumpText rest)))) := by
+  simp [dumpText, List.append_assoc]
+
+theorem makeParse_dumpText_fuel : ∀ (es : List (Bytes × Bytes)) (fuel : Nat),
+    (∀ e ∈ es, e.1.length < u32 ∧ e.2.length < u32) → es.length < fuel →
+    makeParse fuel (dumpText es) = some es := by
+  intro es
+  induction es with
+  | nil =>
+    intro fuel _ hf
+    obtain ⟨f, rfl⟩ : ∃ f, fuel = f + 1 := ⟨fuel - 1, by simp at hf; omega⟩
+    simp [dumpText, makeParse]
+  | cons e rest ih =>
+    intro fuel hsz hf
+    obtain ⟨k, d⟩ := e
+    obtain ⟨f, rfl⟩ : ∃ f, fuel = f + 1 := ⟨fuel - 1, by simp at hf; omega⟩
+    have hk := (hsz (k, d) (by simp)).1
+    have hd := (hsz (k, d) (by simp)).2
+    have ihr := ih f (fun e he => hsz e (List.mem_cons_of_mem _ he)) (by simp at hf; omega)
+    rw [dumpText_cons, makeParse]
+    rw [if_neg (by decide), if_neg (by decide)]
+    rw [readNumUntil_natDigits_delim (by decide) hk]
+    simp only
+    rw [readNumUntil_natDigits_delim (by decide) hd]
+    simp only
+    have hlen : lenGe (k ++ 0x2d :: 0x3e :: (d ++ 0x0a :: dumpText rest))
+        (k.length + 2 + d.length + 1) = true := by
+      rw [lenGe_iff]; simp; omega
+    rw [hlen]
+    simp [ihr]
+
+theorem length_le_dumpText (es : List (Bytes × Bytes)) : es.length < (dumpText es).length := by
+  induction es with
+  | nil => simp [dumpText]
+  | cons e rest ih =>
+    obtain ⟨k, d⟩ := e
+    rw [dumpText_cons]
+    simp only [List.length_cons, List.length_append]
+    omega
+
 end DnsVerif.Cdb
